@@ -273,6 +273,25 @@ class is_flag_active_visitor<Flag, flag_and>""")]),
                                         typename ::boost::remove_cv<Event>::type>::type found;""", """    typedef typename ::boost::mpl::find<typename State::deferred_events,Event>::type found;""")]),
  dict(name='revert-d15-back11-internal-table11', prop='C01', rule='C01.plan', edits=[('include/boost/msm/back11/metafunctions.hpp', """    typedef typename ::boost::fusion::result_of::as_vector<typename StateType::internal_transition_table>::type composite_table;""", """    typedef typename StateType::internal_transition_table11 composite_table;"""),
       ('include/boost/msm/back11/metafunctions.hpp', """    typedef typename ::boost::fusion::result_of::as_vector<typename StateType::internal_transition_table>::type type;""", """    typedef typename StateType::internal_transition_table11 type;""")]),
+ dict(name='revert-d22-mp11-deferring-sequence', prop='C05', rule='C05.defer-result', edits=[(MPT, """        return is_deferring_functor<Functor>() ? process_result::HANDLED_DEFERRED
+                                               : process_result::HANDLED_TRUE;""", """        return process_result::HANDLED_TRUE;""")]),
+ dict(name='revert-d16-back-internal-gate-exact', prop='C18', rule='C18.internal-gate', edits=[(B, """        typedef typename ::boost::mpl::not_< ::boost::is_same<
+            typename ::boost::mpl::find_if<
+                processable_events_internal_table,
+                ::boost::mpl::or_<
+                    ::boost::is_base_of< ::boost::mpl::placeholders::_1, Event >,
+                    ::boost::msm::is_kleene_event< ::boost::mpl::placeholders::_1> > >::type,
+            typename ::boost::mpl::end<processable_events_internal_table>::type> >::type is_event_processable;""", """        typedef typename ::boost::mpl::has_key<processable_events_internal_table,Event>::type is_event_processable;""")]),
+ dict(name='revert-d17-back-exit-pt-base-not-assigned', prop='C15', rule='C15.fields', edits=[(B, """            ExitPoint::operator=(rhs);
+            return *this;""", """            return *this;""")]),
+ dict(name='revert-d20-puml-terminate-suffix', prop='C14', rule='C14.puml', edits=[('include/boost/msm/front/puml/puml.hpp', """cleanup_token(stt().substr(endl_before_pos + 1, arrow_pos - endl_before_pos - 1)) == state_name())""", """cleanup_token(stt().substr(state_pos, arrow_pos - state_pos)) == state_name())""")]),
+ dict(name='flagfold-back11-early-break', prop='C17', rule='C17.pure', edits=[(B11, """            res = typename BinaryOp::type() (res,(*flags_entries[ m_states[i] ])(*this));""", """            res = typename BinaryOp::type() (res,(*flags_entries[ m_states[i] ])(*this));
+            if (res) break;""")]),
+ dict(name='regions-back11-early-return', prop='C06', rule='C06.regions', edits=[(B11, """                result_ = (::boost::msm::back::HandledEnum)((int)result_ | (int)res);
+                In< ::boost::mpl::int_<region_id::value+1> >::process(evt,self_,result_);""", """                result_ = (::boost::msm::back::HandledEnum)((int)result_ | (int)res);
+                if (self_->template is_flag_active< ::boost::msm::TerminateFlag>()) return;
+                In< ::boost::mpl::int_<region_id::value+1> >::process(evt,self_,result_);""")]),
+ dict(name='rowwrap-internal-guard-source-twice', prop='C14', rule='C14.wrap', edits=[('include/boost/msm/front/functor_row.hpp', """            return Guard()(evt,fsm,src,tgt);""", """            return Guard()(evt,fsm,src,src);""")]),
  # ---- behaviour-preserving edits: the checks must stay silent
  dict(name='refactor-rename-local', prop='C02', refactor=True, edits=[(B, """            HandledEnum res = ROW::action_call(fsm,evt,
                              ::boost::fusion::at_key<current_state_type>(fsm.m_substate_list),
